@@ -518,6 +518,90 @@ class VariantReach:
         return [dict(e) for b, e in states if b == bb]
 
 
+def vreach(body, starts, avoid=()):
+    """Variant-sensitive reachability (A13) from several start blocks: blocks reachable when the enum variants established along
+    the way (aggregates, `?`-desugaring, moves through a spliced helper's return) decide the switches.  A subset of plain
+    reachability — infeasible merges through a single return block of an inlined helper are pruned."""
+    vr = VariantReach(body)
+    out = set()
+    for s0 in ([starts] if isinstance(starts, int) else list(starts)):
+        if s0 in avoid:
+            continue
+        out |= vr.blocks(s0, avoid=avoid)
+    return out
+
+
+def state_cycle_blocks(body, avoid=()):
+    """Blocks that lie on a cycle of the variant-sensitive state graph from the function entry that avoids `avoid`: the cycles a
+    feasible execution could go around without passing an `avoid` block."""
+    vr = VariantReach(body)
+    avoid = set(avoid)
+    st0 = (0, ())
+    succ = {}
+    work = [st0]
+    seen = {st0}
+    while work:
+        st = work.pop()
+        bb, env = st
+        nxt = []
+        for n, ne in vr.step(bb, env):
+            if n in avoid:
+                continue
+            s2 = (n, ne)
+            nxt.append(s2)
+            if s2 not in seen:
+                if len(seen) > VariantReach.LIMIT:
+                    raise RuntimeError("state_cycle_blocks: state limit exceeded in %s" % body.name)
+                seen.add(s2)
+                work.append(s2)
+        succ[st] = nxt
+    # Tarjan over states (iterative)
+    index = {}
+    low = {}
+    onstack = set()
+    stack = []
+    out = set()
+    counter = [0]
+    for root in list(succ):
+        if root in index:
+            continue
+        it = [(root, iter(succ.get(root, ())))]
+        index[root] = low[root] = counter[0]
+        counter[0] += 1
+        stack.append(root)
+        onstack.add(root)
+        while it:
+            v, children = it[-1]
+            advanced = False
+            for w in children:
+                if w not in index:
+                    index[w] = low[w] = counter[0]
+                    counter[0] += 1
+                    stack.append(w)
+                    onstack.add(w)
+                    it.append((w, iter(succ.get(w, ()))))
+                    advanced = True
+                    break
+                elif w in onstack:
+                    low[v] = min(low[v], index[w])
+            if advanced:
+                continue
+            it.pop()
+            if it:
+                low[it[-1][0]] = min(low[it[-1][0]], low[v])
+            if low[v] == index[v]:
+                comp = []
+                while True:
+                    w = stack.pop()
+                    onstack.discard(w)
+                    comp.append(w)
+                    if w == v:
+                        break
+                if len(comp) > 1 or v in succ.get(v, ()):
+                    out |= {b for b, _ in comp}
+    return out
+
+
 class BoolReach:
     """Reachability under an assignment of truth values to named boolean facts (A14).  `atom_of(kind, bb, obj)` names the
     fact a statement (`kind` = 'binop', obj = the assignment) or a call (`kind` = 'call', obj = the terminator) computes and
